@@ -1,4 +1,6 @@
+pub mod chacha_guts;
 pub mod chacha_stream;
+pub mod hashes;
 
 use crate::engine::Ctx;
 
@@ -7,7 +9,15 @@ pub fn run(ctx: &mut Ctx) -> bool {
     match ctx.prop.as_str() {
         "C01" => chacha_stream::run_c01(ctx),
         "C02" => chacha_stream::run_c02(ctx),
+        "C04" => hashes::run_c04(ctx),
+        "C05" => hashes::run_c05(ctx),
+        "C06" => hashes::run_c06(ctx),
+        "C07" => hashes::run_c07(ctx),
+        "C08" => hashes::run_c08(ctx),
+        "C17" => hashes::run_c17(ctx),
         "C11" => chacha_stream::run_c11(ctx),
+        "C14" => chacha_guts::run_c14(ctx),
+        "C15" => chacha_guts::run_c15(ctx),
         _ => return false,
     }
     true
